@@ -119,6 +119,20 @@ theorem revSegAux_last (db : DB) (fsb : Nat) (fuel : Nat) (cur : Id) (curNum : N
           · exact ⟨[], ⟨{ e.blk with num := curNum }, e.sent⟩, by rw [h1]; rfl, by simp [Blk.ref, find_id db cur e he]⟩
           · exact ⟨pre ++ [x], ⟨{ e.blk with num := curNum }, e.sent⟩, by rw [h1]; simp, by simp [Blk.ref, find_id db cur e he]⟩
 
+theorem revSegAux_reach (db : DB) (fsb : Nat) (fuel : Nat) (cur : Id) (curNum : Nat) (acc l : List Entry) (r : Bool)
+    (hl : db.hasLIB = true) (h : db.revSegAux fsb fuel cur curNum acc = (some l, r)) : r = true := by
+  induction fuel generalizing cur curNum acc with
+  | zero => simp [DB.revSegAux] at h
+  | succ n ih =>
+    unfold DB.revSegAux at h
+    split at h
+    · simp at h
+    · split at h
+      · simp only [Prod.mk.injEq] at h; exact h.2.symm
+      · split at h
+        · simp [hl] at h
+        · exact ih _ _ _ h
+
 theorem reversibleSegment_last (db : DB) (fsb : Nat) (start : Ref) (l : List Entry) (r : Bool)
     (h : db.reversibleSegment fsb start = (some l, r)) (hne : l ≠ []) :
     (l.getLast?.map (·.blk.ref)) = some start := by
